@@ -143,6 +143,29 @@ theorem var_table_sound_expr_partial (F : FloatOps) (e : SEntry) (op : BinOp) (k
   rw [accepted_body e _ hc (by simp) ha]
   exact C02Sound.varOp_unboxed_expr F op k u hu ρ m idx c x kf id hfun hidx hx
 
+/-- `x = val` / `x = fun(env)` on an int-slot variable (`varSetConst`, `varSetExpr`): an accepted arm
+    writes the value at kind `k` into slot `index` of the frame its path names and advances IP; the
+    operand closure is applied exactly once -/
+theorem var_set_sound_partial (F : FloatOps) (e : SEntry) (k : Kind) (u : Upn) (hu : u ≠ .loop)
+    (hc : classify e = some (.varSet k u true .const)) (ha : accept e = true)
+    (ρ : StmtIR.Store) (m : Mach) (idx : Nat) (c : Val)
+    (hval : StmtIR.lookup ρ "val" = some (.val c)) (hidx : StmtIR.lookup ρ "index" = some (.nat idx))
+    (hlen : C02Sound.hopOf u m 0 < m.frames.length) :
+    StmtIR.execBody F e.body (StmtIR.update ρ "env" (.envp 0)) m =
+      C02Sound.specSetUnboxed k m (C02Sound.hopOf u m 0) idx c := by
+  rw [accepted_body e _ hc (by simp) ha]
+  exact C02Sound.varSet_unboxed_const F k u hu ρ m idx c hval hidx hlen
+
+theorem var_set_sound_expr_partial (F : FloatOps) (e : SEntry) (k : Kind) (u : Upn) (hu : u ≠ .loop)
+    (hc : classify e = some (.varSet k u true .expr)) (ha : accept e = true)
+    (ρ : StmtIR.Store) (m : Mach) (idx : Nat) (c : Val) (kf : Kind) (id : Nat)
+    (hfun : StmtIR.lookup ρ "fun" = some (.clo kf id (.ok c))) (hidx : StmtIR.lookup ρ "index" = some (.nat idx))
+    (hlen : C02Sound.hopOf u m 0 < m.frames.length) :
+    StmtIR.execBody F e.body (StmtIR.update ρ "env" (.envp 0)) m =
+      C02Sound.specSetUnboxed k { m with log := m.log ++ [id] } (C02Sound.hopOf u m 0) idx c := by
+  rw [accepted_body e _ hc (by simp) ha]
+  exact C02Sound.varSet_unboxed_expr F k u hu ρ m idx c kf id hfun hidx hlen
+
 /-- frame condition of the store: nothing but `frames[h].ints` changes -/
 theorem slot_write_frame {m m' : Mach} {k : Kind} {h i : Nat} {v : Val} (hw : writePtr m k h i v = some m') :
     m'.frames.length = m.frames.length ∧ m'.fileIdx = m.fileIdx ∧ m'.ip = m.ip ∧ m'.heap = m.heap ∧
